@@ -8,7 +8,7 @@ H5 no two owners of one allocation (= C18.T4 freshness)"""
 from sa.ast import render
 from sa.facts import Inconclusive
 from sa import query
-from rules import own_rules
+from rules import own_rules, common
 
 META = {
     "level": "proof",
@@ -77,13 +77,13 @@ def h3(prog, ctx):
         else:
             ctx.fail("H3", "econf_freeFile releases %s" % fld, f.where,
                      "the owning field `%s` of econf_file is never released: every object leaks it" % fld, key="field:econf_file.%s" % fld)
-    loop = [n for n in f.walk() if n.k == "ForStmt"]
+    from sa import loops as _loops
     per_entry = set()
-    bound = None
-    for l in loop:
-        cond = l.child("cond")
-        if cond is not None:
-            bound = render(cond)
+    trav = None
+    for l in [n for n in f.walk() if n.k in ("ForStmt", "WhileStmt", "DoStmt")]:
+        for t in _loops.traversals(l):
+            if t.base == "%s->file_entry" % p:
+                trav = t
         for c in l.walk():
             if c.k == "CallExpr" and c.j.get("callee") == "free" and c.call_args():
                 a = c.call_args()[0].strip()
@@ -99,11 +99,13 @@ def h3(prog, ctx):
             ctx.ok("H3", "econf_freeFile releases entry field %s" % fld, f.where, "freed for every slot")
         else:
             ctx.fail("H3", "econf_freeFile releases entry field %s" % fld, f.where, "`%s` of every entry leaks" % fld, key="entryfield:%s" % fld)
-    if bound and "alloc_length" in bound:
-        ctx.ok("H3", "econf_freeFile visits all allocated slots", f.where, "loop bound `%s`" % bound)
+    if trav is None:
+        ctx.inconclusive("H3", "econf_freeFile visits all allocated slots", f.where, "loop over %s->file_entry not recognised" % p)
+    elif trav.lo in ("0",) and "alloc_length" in trav.hi:
+        ctx.ok("H3", "econf_freeFile visits all allocated slots", trav.loop.where, trav.describe())
     else:
-        ctx.fail("H3", "econf_freeFile visits all allocated slots", f.where,
-                 "loop bound `%s`: the pre-initialised slots beyond `length` (8 in a fresh object) leak" % bound, key="slots-bound")
+        ctx.fail("H3", "econf_freeFile visits all allocated slots", trav.loop.where,
+                 "%s: the pre-initialised slots beyond `length` (8 in a fresh object) leak" % trav.describe(), key="slots-bound")
     # ext value
     f = prog.fn("econf_freeExtValue")
     p = f.params[0]["name"]
@@ -166,10 +168,18 @@ def h4(prog, ctx):
         succ = [r for r in f.returns() if query.returned_constant(r) in ("ECONF_SUCCESS", 0) or (r.children and r.children[0].strip().j.get("ct", "").startswith("struct"))]
         if name == "initialize":
             succ = [None]
+        returns_status = (f.j.get("ret", {}) or {}).get("ct") in ("enum econf_err", "econf_err") or any(
+            query.returned_constant(r) is not None for r in f.returns())
+        succ_edges = {(b, i): s2 for (b, i, s2) in cfg.edges()}
         for fld in fields:
             bs = blocks.get(fld, set())
             ok = bool(bs)
-            if ok:
+            if ok and returns_status and name != "initialize":
+                # a consistent path from the start to a return that may deliver success, never entering an assigning block
+                if start not in bs:
+                    wp = cfg.success_path_avoiding(lambda lit, b, i: succ_edges.get((b, i)) in bs, start=start)
+                    ok = wp is None
+            elif ok:
                 targets = [cfg.block_of(r) for r in succ if r is not None] or [cfg.exit]
                 for t in targets:
                     if t in cfg.reachable(start, avoid_blocks=bs) and t not in bs:
@@ -219,6 +229,8 @@ def h4(prog, ctx):
 def run(prog, ctx):
     names = [n for n in own_rules.LIB_FUNCS if prog.has_fn(n)]
     missing = [n for n in own_rules.LIB_FUNCS if not prog.has_fn(n)]
+    # a static anchor that disappeared lives on inside its callers (virtual inlining); only exported ones are missed
+    missing = [n for n in missing if n not in common.static_anchors()]
     if missing:
         ctx.inconclusive("H1", "functions under the typestate", "", "anchor(s) vanished: %s" % missing)
     total_exits = 0
